@@ -312,14 +312,14 @@ func c16Exec(ctx *core.Ctx, c c16Case) {
 		if c.Reclose {
 			// the first message's writer is closed once more while the second message is being
 			// written: a local error, nothing on the wire, the second message unharmed
-			w2.Write([]byte("second "))
+			w2.Write([]byte(".second "))
 			m2 := rig.Log.Len()
 			if err := w.Close(); err == nil {
 				done()
 				fail("C16:stale-writer-close", "closing the first message's (already closed) writer while the second message is open returned nil")
 				return
 			}
-			w2.Write([]byte("message body\r\n"))
+			w2.Write([]byte("message body\r\n.dot line\r\n"))
 			for _, e := range rig.Log.Events()[m2:] {
 				if e.Kind == "c2s" && strings.Contains(e.A, "\r\n.\r\n") {
 					done()
@@ -328,7 +328,7 @@ func c16Exec(ctx *core.Ctx, c c16Case) {
 				}
 			}
 		} else {
-			w2.Write([]byte("second message body\r\n"))
+			w2.Write([]byte(".second message body\r\n.dot line\r\n"))
 		}
 		closeErr3 = w2.Close()
 	}
@@ -380,7 +380,7 @@ func c16Exec(ctx *core.Ctx, c c16Case) {
 				}
 			}
 		}
-		if len(mails) != 2 || mails[1].A != "sender16b@x.test" || strings.Join(r2, ",") != strings.Join(rcpts2, ",") || des[1].A != "second message body\r\n" {
+		if len(mails) != 2 || mails[1].A != "sender16b@x.test" || strings.Join(r2, ",") != strings.Join(rcpts2, ",") || des[1].A != ".second message body\r\n.dot line\r\n" {
 			fail("C16:second-message-envelope", fmt.Sprintf("second message: backend saw senders %v recipients %v body %q", len(mails), r2, des[1].A))
 			return
 		}
@@ -471,10 +471,20 @@ func (w *c16SendMailWriter) Close() error {
 		return errors.New("harness: SendMail has already run")
 	}
 	w.ran = true
-	return w.cl.SendMail(w.from, w.to, &c16SegReader{segs: w.segs})
+	total := 0
+	for _, sg := range w.segs {
+		total += len(sg)
+	}
+	return w.cl.SendMail(w.from, w.to, &c16SegReader{segs: w.segs, eofWithData: total%2 == 1})
 }
 
-type c16SegReader struct{ segs [][]byte }
+// c16SegReader yields the pieces one per Read; with eofWithData the last piece comes together
+// with io.EOF (as iotest.DataErrReader, HTTP bodies and decoders do), otherwise io.EOF follows on
+// a Read of its own.
+type c16SegReader struct {
+	segs        [][]byte
+	eofWithData bool
+}
 
 func (r *c16SegReader) Read(p []byte) (int, error) {
 	for len(r.segs) > 0 && len(r.segs[0]) == 0 {
@@ -485,5 +495,9 @@ func (r *c16SegReader) Read(p []byte) (int, error) {
 	}
 	n := copy(p, r.segs[0])
 	r.segs[0] = r.segs[0][n:]
+	if r.eofWithData && len(r.segs) == 1 && len(r.segs[0]) == 0 {
+		r.segs = nil
+		return n, io.EOF
+	}
 	return n, nil
 }
